@@ -82,7 +82,23 @@ fn gen_case(prop: &str, r: &mut Rng) -> Case {
                 // generated only as the last goal of the top-level conjunction and never nested
                 let inner = Kinds { closure: false, ..kinds };
                 let b: Vec<SG> = (0..1 + r.below(2)).map(|_| g.goal(r, &mut scope, 2, &inner)).collect();
-                gs.push(SG::Closure(b));
+                // C15: half of them as ONE closure value used twice in a row (each use is its own invocation)
+                if prop == "C15" && r.chance(1, 2) {
+                    let k = Kinds { closure: false, fresh: true, ..kinds };
+                    let mut b2: Vec<SG> = vec![];
+                    // a body that introduces a fresh variable and can place it in more than one way
+                    let q = ST::Var(r.pick(&scope).clone());
+                    b2.push(SG::Fresh(vec!["yy".into()], vec![SG::Op("conde", vec![
+                        vec![SG::Eq(q.clone(), ST::Improper(vec![ST::Var("yy".into())], Box::new(ST::Any))), SG::Eq(ST::Var("yy".into()), ST::Num(1))],
+                        vec![SG::Eq(q, ST::Improper(vec![ST::Any, ST::Var("yy".into())], Box::new(ST::Any))), SG::Eq(ST::Var("yy".into()), ST::Num(2))],
+                    ])]));
+                    if r.chance(1, 2) {
+                        b2.push(g.goal(r, &mut scope, 1, &k));
+                    }
+                    gs.push(SG::Twice(b2));
+                } else {
+                    gs.push(SG::Closure(b));
+                }
             }
             SG::Conj(gs)
         }
